@@ -33,7 +33,7 @@ def gen_verlet(rng, k, small):
     wmax = max(math.sqrt((ks[i] + (3.0 if pot != "harmonic" else 0)) / masses[i]) for i in range(n))
     wdt = rng.choice([0.02, 0.05, 0.1, 0.2])
     dt = wdt / wmax / FS
-    c = {"mode": "verlet", "natoms": n, "masses": masses, "k": ks, "r0": r0, "q": q, "p": p, "pot": pot, "dt": dt,
+    c = {"mode": "verlet", "natoms": n, "masses": masses, "k": ks, "r0": r0, "q": q, "p": p, "pot": pot, "dt": dt, "warm": rng.random() < 0.5,
          "n": rng.choice([1, 2, 3]) if small else rng.choice([8, 20, 40, 64]), "wdt": wdt}
     if pot == "quartic":
         c["quartic"] = rng.choice([0.5, 2.0])
@@ -102,7 +102,7 @@ def run(res: C.Result):
         results[j::16] = o["results"]
 
     coq, meta = [], []
-    dist = {"verlet": {"harmonic": 0, "quartic": 0, "morse": 0}, "steps": {}, "w_dt": {}, "mb": {"forced": 0, "plain": 0},
+    dist = {"verlet": {"harmonic": 0, "quartic": 0, "morse": 0}, "steps": {}, "w_dt": {}, "integrator_reused_from_other_system": 0, "mb": {"forced": 0, "plain": 0},
             "fresh": {"steps": 0, "vetoed_attempts": 0, "failed_moves": 0}, "order_ratios": [], "order_skipped_rounding": 0}
     distinct = set()
     for k, (c, r) in enumerate(zip(cases, results)):
@@ -111,6 +111,7 @@ def run(res: C.Result):
             continue
         if c["mode"] == "verlet":
             dist["verlet"][c["pot"]] += 1
+            dist["integrator_reused_from_other_system"] += bool(c.get("warm"))
             dist["steps"][c["n"]] = dist["steps"].get(c["n"], 0) + 1
             dist["w_dt"][c["wdt"]] = dist["w_dt"].get(c["wdt"], 0) + 1
             n3 = 3 * c["natoms"]
@@ -163,6 +164,10 @@ def run(res: C.Result):
                 for i in range(n3):
                     for comp, impl in (("qq", q1[i]), ("pp", p1[i])):
                         tol = 1e-12 * (1.0 + abs(impl))
+                        if comp == "pp":
+                            # with apply_constraints (the default) the code re-derives p as (x' - x) m / dt: the rounding of x'
+                            # (one ulp of |x|) is amplified by m/dt per step - condition of the expression, not a formula error
+                            tol += 8 * ULP * (abs(q1[i]) + 1.0) * c["masses"][i // 3] / dti * c["n"]
                         coq.append(f"close_case {len(meta)}%nat ({comp} (integrate (harmonic {K} {R0}) {M} {C.rlit(dti)} {c['n']} {S0}) {i}%nat) {C.rlit(impl)} {C.rlit(tol)}.")
                         meta.append((k, "vv", (i, comp)))
         elif c["mode"] == "mb":
